@@ -91,7 +91,9 @@ _p('C03', ['r_table'],
    not_decided='that wasm-encoder serialises an Instruction value correctly (trusted)')
 PROPERTIES['C03']['rules'] = ['r_table', 'r_control']
 
-_p('C06', ['r_edges'],
+_p('C06', ['r_edges', 'r_segments'],
+   'The links the closure walks exist: every active element / data segment is registered on the table / memory it '
+   'initialises when it is parsed (R-FLOW-SEG backlink obligations), whatever the table or memory looks like.  '
    'The GC closure is checked against the type definitions: every id-typed position (struct field, enum payload, '
    'collection element, const-expr operand) of every entity kind tracked by `Used` is enumerated from the resolved '
    'ADTs, each worklist loop of Used::new is evaluated symbolically, and the position must be pushed in every world '
@@ -106,7 +108,7 @@ _p('C16', ['r_visit'],
    'resumption point, child sequences scheduled for every owner, start/end events once per sequence.',
    not_decided='program-order of events across nested sequences as a whole (argued from the resumption discipline, not '
                'executed); absence of recursion is decided by R-NOREC')
-PROPERTIES['C06']['rules'] = ['r_edges', 'r_visit']
+PROPERTIES['C06']['rules'] = ['r_edges', 'r_visit', 'r_segments']
 
 _p('C04', ['r_flow'],
    'Attribute flow through the entity records: each section parser and each section emitter is evaluated symbolically, '
